@@ -124,6 +124,12 @@ SCRIPT_CORPUS = [
     "F 1;C 0;I 0;U 0 0 0;Y 1;H;R 0 0 0 1 1,2,3 0 -;P 0 2;W 2;Y 2;H;P 0 2;Y 1;H;P 0 2;P 0 3;R 0 0 0 2 2,3,4 0 -;P 0 2;P 0 3;P 0 4;Q 0 4",
     # withdrawals and a lost connection reach both units; a rejected prefix stays out of the filtered unit only
     "F 3;C 0;C 1;I 0;I 1;U 0 0 0;U 1 5 0;Y 1;W 4;H;R 0 0 0 1 3,4,5 0 -;R 1 5 0 2 3,4 0 -;R 0 0 0 3 - 0 5;X 1;Q 0 3;Q 0 4;Q 0 5;P 0 3;P 0 4;P 0 5",
+    # seeded C10-c1 (the units fetch their filter with try_lock().ok()?): a unit that starts while something else holds the mutex
+    # around the compiled script must wait and then HAVE its filter - at start-up ...
+    "F 1;FH;C 0;I 0;U 0 0 0;R 0 0 0 1 1,2,3 0 -;Q 0 1;Q 0 2;Q 0 3",
+    # ... and a unit started by a reload (the script edited in between)
+    "F 1;C 0;I 0;U 0 0 0;W 2;Y 1;FH;H;R 0 0 0 1 1,2,3 0 -;Q 0 1;Q 0 2;P 0 1;P 0 2;P 0 3",
+    "F 2;FH;C 0;I 0;U 0 0 0;Y 1;FH;L;R 0 0 0 1 1,2,3 0 -;Q 0 2;Q 0 3;P 0 2;P 0 3",
 ]
 CORPUS["C10"] = SCRIPT_CORPUS
 CORPUS["C13"] = CORPUS["C13"] + SCRIPT_CORPUS + [
@@ -282,6 +288,9 @@ def script_story(rng, ops):
             block.append(f"W {pick()}" + (" 1" if rng.chance(35) else ""))
         if rng.chance(75):
             block.append(f"Y {rng.weighted([(1, 70), (0, 15), (2, 15)])}")
+        if rng.chance(10):
+            # this reload happens while something else holds the mutex around the compiled script
+            block.append("FH")
         block.append(rng.choice(["H", "H", "L"]))
         at = rng.below(len(out) + 1)
         out[at:at] = block
@@ -293,6 +302,9 @@ def script_story(rng, ops):
     if rng.chance(70):
         s0 = rng.weighted([(1, 20), (2, 20), (3, 20), (4, 15), (5, 10), (6, 10), (9, 5)])
         res.insert(0, f"F {s0}")
+        if rng.chance(8):
+            # the start-up happens while something else holds the mutex around the compiled script
+            res.insert(1, "FH")
     asked = []
     for _ in range(rng.range(2, 4)):
         p = 1 + rng.below(6)
